@@ -268,3 +268,101 @@ pub fn mkfifo(p: &Path) {
 pub fn raw_fd<T: AsRawFd>(t: &T) -> i32 {
 	t.as_raw_fd()
 }
+
+/// Runs xt with stdout connected to a pipe of the given capacity whose consumer (the harness) takes
+/// exactly `take` bytes, waits until xt is provably blocked in write(1, ..) (or has exited), and then
+/// closes the read end. `take == usize::MAX` closes the read end before xt starts.
+pub fn run_with_leaving_consumer(sp: &Spawn, capacity: i32, take: usize) -> (ProcOut, bool) {
+	let mut fds = [0i32; 2];
+	// SAFETY: plain pipe2 call with a valid array.
+	assert!(unsafe { libc::pipe2(fds.as_mut_ptr(), libc::O_CLOEXEC) } == 0, "MACHINERY: pipe2");
+	// SAFETY: descriptors just created.
+	let (rd, wr) = unsafe { (OwnedFd::from_raw_fd(fds[0]), OwnedFd::from_raw_fd(fds[1])) };
+	if capacity > 0 {
+		// SAFETY: fcntl on a descriptor we own.
+		let got = unsafe { libc::fcntl(wr.as_raw_fd(), libc::F_SETPIPE_SZ, capacity) };
+		assert!(got >= capacity, "MACHINERY: F_SETPIPE_SZ");
+	}
+	let mut cmd = Command::new(xt_bin(sp.release));
+	cmd.args(&sp.args).current_dir(&sp.cwd).stderr(Stdio::piped()).stdout(Stdio::from(wr));
+	cmd.env_remove("LD_PRELOAD");
+	for (k, v) in &sp.env {
+		cmd.env(k, v);
+	}
+	match &sp.stdin {
+		Stdin::Bytes(_) => {
+			cmd.stdin(Stdio::piped());
+		}
+		Stdin::Null => {
+			cmd.stdin(Stdio::null());
+		}
+		Stdin::File(p) => {
+			cmd.stdin(File::open(p).expect("MACHINERY: stdin fixture"));
+		}
+	}
+	let mut rd = Some(File::from(rd));
+	if take == usize::MAX {
+		rd = None; // the consumer is gone before xt starts
+	}
+	let mut child = cmd.spawn().expect("MACHINERY: cannot spawn xt");
+	drop(cmd);
+	let pid = child.id();
+	watchdog_register(pid, Instant::now() + sp.timeout);
+	let stdin_thread = if let Stdin::Bytes(b) = &sp.stdin {
+		let mut pipe = child.stdin.take().unwrap();
+		let data = b.clone();
+		Some(std::thread::spawn(move || {
+			let _ = pipe.write_all(&data);
+		}))
+	} else {
+		None
+	};
+	let mut taken = vec![];
+	let mut blocked = false;
+	if let Some(f) = rd.as_mut() {
+		let mut buf = vec![0u8; 65536];
+		while taken.len() < take {
+			let want = (take - taken.len()).min(buf.len());
+			match f.read(&mut buf[..want]) {
+				Ok(0) | Err(_) => break,
+				Ok(n) => taken.extend_from_slice(&buf[..n]),
+			}
+		}
+		// wait until xt is blocked in write(1, ...) or gone
+		let start = Instant::now();
+		loop {
+			let sys = std::fs::read_to_string(format!("/proc/{pid}/syscall")).unwrap_or_default();
+			let stat = std::fs::read_to_string(format!("/proc/{pid}/stat")).unwrap_or_default();
+			let state = stat.rsplit(')').next().and_then(|r| r.split_whitespace().next()).unwrap_or("").to_string();
+			let mut it = sys.split_whitespace();
+			if it.next() == Some("1") && it.next() == Some("0x1") && state == "S" {
+				blocked = true;
+				break;
+			}
+			if state == "Z" || state.is_empty() || start.elapsed() > Duration::from_secs(10) {
+				break;
+			}
+			std::thread::sleep(Duration::from_micros(200));
+		}
+	}
+	drop(rd); // the consumer leaves
+	let mut stderr = vec![];
+	if let Some(mut p) = child.stderr.take() {
+		let _ = p.read_to_end(&mut stderr);
+	}
+	let st = child.wait().expect("MACHINERY: wait");
+	let timed_out = watchdog_unregister(pid);
+	if let Some(t) = stdin_thread {
+		let _ = t.join();
+	}
+	let exit = if timed_out {
+		Exit::Timeout
+	} else {
+		match (st.code(), st.signal()) {
+			(Some(c), _) => Exit::Code(c),
+			(None, Some(s)) => Exit::Signal(s),
+			_ => Exit::Code(-1),
+		}
+	};
+	(ProcOut { exit, stdout: taken, stderr }, blocked)
+}
